@@ -66,6 +66,10 @@ def loop_program(ctxs, style, n, samples):
     elif style == "variadic":
         body = begin(head, if_(prim("=", V(i), I(n)), V(acc), wrap(call(loop))))
         defs = [(loop, lam([i, acc], "lrest", body))]
+    elif style == "delay-force":     # R7RS 4.2.5: an iterative lazy algorithm - forcing a chain of delay-force steps must not grow the stack
+        body = begin(head, if_(prim("=", V(i), I(n)), cg.delay(V(acc)), cg.delay_force(wrap(call(loop)))))
+        defs = [(loop, lam([i, acc], None, body))]
+        return letrec([d[0] for d in defs], [d[1] for d in defs], begin(emit(cg.force(app(V(loop), [I(0), I(0)]))), emit(S("end"))))
     else:
         body = begin(head, if_(prim("=", V(i), I(n)), V(acc), wrap(call(loop))))
         defs = [(loop, lam([i, acc], None, body))]
@@ -85,7 +89,7 @@ def run():
         else:
             rng.shuffle(combos)
             combos = [[a] for a in names] + combos[:110] + [[rng.choice(names) for _ in range(3)] for _ in range(40)]
-        styles = ["self", "mutual", "variadic", "apply"]
+        styles = ["self", "mutual", "variadic", "apply", "delay-force"]
         bigN = 10 ** 7 if chk.thorough else 10 ** 5
         small, big, kinds = [], [], {}
         pid = 0
@@ -124,7 +128,7 @@ def run():
             if pid_ in ok or pid_ not in bad:
                 continue
             ctx = kinds[pid_]
-            key = "c05:%s" % (ctx.split(":")[0] + ":" + ctx.split(":")[-1].split("/")[0])
+            key = "c05:%s" % (ctx.split(":")[0] + ":" + (ctx.split(":")[1] + ":" if ctx.split(":")[1] == "delay-force" else "") + ctx.split(":")[-1].split("/")[0])
             chk.report(key, "loop %d (%s): stack samples of the long run %s / short run %s do not follow the machine (%s)" %
                        (pid_, ctx, extra[pid_]["big"], res_small.get(pid_, {}).get("status"), bad[pid_]),
                        "loop_%d.json" % pid_, {"key": key, "contexts": ctx, "scheme_short": node.scm, "long_run_samples": extra[pid_]["big"],
